@@ -39,7 +39,11 @@ def make_params(tier, seed):
         bits = rng.choice([7, 8, 15, 16, 31, 32, 63, 64])
         n = rng.getrandbits(bits) | (1 << (bits - 1)) if rng.random() < 0.5 else rng.getrandbits(rng.randint(1, bits))
         rnd.append({"neg": rng.random() < 0.4 and n != 0, "mag": L.to_limbs(n)})
-    return {"seed": seed % 9973, "mod": 120 if tier == "quick" else 12, "rnd": rnd}
+    if tier == "quick":
+        knobs = {"mod": 320, "pmod": 5, "pmodo": 60, "jmod": [40, 16, 30]}
+    else:
+        knobs = {"mod": 800, "pmod": 4, "pmodo": 24, "jmod": [8, 16, 24]}
+    return dict(knobs, seed=seed % 9973, rnd=rnd)
 
 
 EXTRA_FLOATS = [0.1, -0.1, 1e-05, 2.5e-07, 1e22, 1.7976931348623157e308, 5e-324, 123456789.123, 1 / 3.0, 2.675, 1e16, 9999999.5, 0.00001234,
@@ -151,6 +155,7 @@ def run(tier, seed):
     r = core.tlc_or_die("FormatSpec", cfg=cfg, env={"C18_PARAMS": pfile}, timeout=900 if tier == "quick" else 3000,
                         workers=min(core.NCPU, 8))      # (no -coverage: cost tracking switches off TLC's LET caching and the run never ends)
     cov["tlc"].append(dict(r.summary(), config=cfg))
+    phase = {"tlc": round(time.time() - t0, 1)}
     cases = r.printed
     # vacuity guard on the model: every done state is published by the invariant Publish, so the records count the Eval<Site> steps
     if r.generated != 3 * len(cases) or r.depth != 3:
@@ -198,6 +203,7 @@ def run(tier, seed):
     if n_err_expected == 0 or not any(h for h in hz_count if h):
         core.die("vacuous case set: %d error cells, hazards %r" % (n_err_expected, dict(hz_count)))
 
+    phase["oracle"] = round(time.time() - t0, 1)
     # ---- build
     exprs = collections.defaultdict(dict)
     for c, op, val, want, hz, decided in cells:
@@ -216,6 +222,7 @@ def run(tier, seed):
     for name, b in failed:
         rep.disagree({"site": "build", "module": name, "stage": b.stage}, "build-failed", {"errors": (b.errors or "")[-3000:]})
 
+    phase["build"] = round(time.time() - t0, 1)
     # ---- replay
     per_mod = collections.defaultdict(list)
     for i, (c, op, val, want, hz, decided) in enumerate(cells):
@@ -238,6 +245,7 @@ def run(tier, seed):
         for lst, obs in ex.map(one, sorted(per_mod.items())):
             for (i, b, call), o in zip(lst, obs):
                 got[i] = (obs_of(o), call)
+    phase["replay"] = round(time.time() - t0, 1)
     n_replayed = 0
     n_agree = 0
     dump = [] if os.environ.get("C18_DUMP") else None      # development aid: all disagreements of the run as one JSON file
@@ -288,7 +296,7 @@ def run(tier, seed):
         "model_hazard_cells": {k or "none": v for k, v in hz_count.items()},
         "spec_vs_cpython_drift": 0,
         "distinct_nontrivial": len(distinct),
-        "modules": len(mods), "functions_sites": sum(len(m[2]) for m in mods),
+        "phase_end_s": phase, "modules": len(mods), "functions_sites": sum(len(m[2]) for m in mods),
         "rule": "cases = format specs / %-templates / call forms / part lists enumerated by TLC (C-level families completely, the rest of the "
                 "grammar as a seeded sample); each case x operand grid (12 C integer types at bounds, digit-count boundaries and seeded random "
                 "values, bint, double, object ints/bools/floats/strs/None, str-typed); a cell is non-trivial when its expected outcome is "
